@@ -18,7 +18,8 @@ pub fn alphabet() -> Vec<(usize, J)> {
     for v in 0..N {
         let a = (v + 1) % N;
         let b = (v + 2) % N;
-        let mut js = vec![J::Equal(a), J::Equal(b), J::Any, J::Bytes];
+        // a variable may also be declared equal to itself
+        let mut js = vec![J::Equal(a), J::Equal(b), J::Equal(v), J::Any, J::Bytes];
         for (w, u) in [
             (None, 0u8),
             (None, 1),
@@ -369,7 +370,7 @@ impl Check for C14 {
             total.get("unifications").max(1),
             total.get("unifications"),
             &format!(
-                "all sets of <= {} judgements over a 3-variable universe and a per-variable alphabet of 27 judgements (equalities, Any, \
+                "all sets of <= {} judgements over a 3-variable universe and a per-variable alphabet of 28 judgements (equalities incl. v = v, Any, \
                  dynamic bytes, 9 words of all usages and widths, mappings incl. a mapping whose key and value are itself, dynamic and \
                  fixed arrays incl. self-reference, packed encodings with span lists that are empty, overlapping and unsorted, beyond \
                  bit 256, and self-referential). Each set is evaluated from scratch on the real unification::unify under a poll \
